@@ -54,6 +54,14 @@ pub enum Case {
         #[serde(default)]
         debug: bool,
     },
+    /// the matrix routine instantiated with a scalar WIDER than f64 (double-double);
+    /// optional fault: the `at`-th multiplication is off by the factor 1 + 2^-j
+    DirectWide {
+        mat: MatCase,
+        tol: Option<u64>,
+        #[serde(default)]
+        fault: Option<(u64, u8)>,
+    },
     Sample {
         spec: GraphSpec,
         point: Vec<u64>,
@@ -352,6 +360,11 @@ pub fn run_case(case: &Case) -> CaseResult {
             };
             CaseResult { violations, outcome, fired: st.fired }
         }
+        Case::DirectWide { mat, tol, fault } => {
+            let (violations, outcome) = run_wide(mat, *tol, *fault);
+            let fired = fault.map(|(at, j)| vec![(at, FaultKind::Perturb(j), kind::MUL)]).unwrap_or_default();
+            CaseResult { violations, outcome, fired }
+        }
         Case::Sample { spec, point, ed, tol, meta, faults, debug } => {
             hashkeys::reset(0x5a);
             let s = match sampler::build(spec) {
@@ -461,14 +474,122 @@ pub fn judge_sample(o: &Outcome, spec: &GraphSpec, tol: Option<u64>, natural: bo
     }
 }
 
+// ------------------------------------------------------------- wide scalar leg
+
+use crate::simdd::SimDD;
+
+fn wide_decompose(m: &MatCase, tol: Option<u64>, fault: Option<(u64, u8)>) -> Result<(SimDD, Vec<(f64, f64)>), String> {
+    let mut sm = SquareMatrix::new_zeros_from_num(&SimDD::from(0.0), m.dim);
+    for i in 0..m.dim {
+        for j in 0..m.dim {
+            sm[(i, j)] = SimDD::from(f64::from_bits(m.entries[i * m.dim + j]));
+        }
+    }
+    let settings = TropicalSamplingSettings {
+        matrix_stability_test: tol.map(f64::from_bits),
+        print_debug_info: false,
+        return_metadata: false,
+    };
+    crate::simdd::dd_plan(fault.map(|f| f.0), fault.map(|f| 1.0 + 2f64.powi(-(f.1 as i32))).unwrap_or(1.0));
+    let r = catch_unwind(AssertUnwindSafe(|| sm.decompose_for_tropical(&settings)));
+    crate::simdd::dd_plan(None, 1.0);
+    match r {
+        Ok(Ok(d)) => Ok((d.determinant, d.inverse.clone().get_raw_data().iter().map(|x| (x.hi, x.lo)).collect())),
+        Ok(Err(e)) => Err(format!("{:?}", e)),
+        Err(_) => Err("panicked".into()),
+    }
+}
+
+/// exact distance of a wide-scalar result (None if not Ok / non-finite)
+pub fn wide_distance(m: &MatCase, fault: Option<(u64, u8)>) -> Option<exact::Dy> {
+    let (_, inv) = wide_decompose(m, None, fault).ok()?;
+    let mat: Vec<(f64, f64)> = m.entries.iter().map(|b| (f64::from_bits(*b), 0.0)).collect();
+    exact::l21_distance_hp(&inv, &mat, m.dim)
+}
+
+/// number of double-double multiplications of the decomposition proper
+fn wide_mul_count(m: &MatCase) -> u64 {
+    crate::simdd::dd_plan(None, 1.0);
+    let mut sm = SquareMatrix::new_zeros_from_num(&SimDD::from(0.0), m.dim);
+    for i in 0..m.dim {
+        for j in 0..m.dim {
+            sm[(i, j)] = SimDD::from(f64::from_bits(m.entries[i * m.dim + j]));
+        }
+    }
+    let settings = TropicalSamplingSettings { matrix_stability_test: None, print_debug_info: false, return_metadata: false };
+    let _ = catch_unwind(AssertUnwindSafe(|| sm.decompose_for_tropical(&settings)));
+    crate::simdd::dd_mul_count()
+}
+
+fn run_wide(m: &MatCase, tol: Option<u64>, fault: Option<(u64, u8)>) -> (Vec<V16>, &'static str) {
+    match wide_decompose(m, tol, fault) {
+        Err(e) => (
+            vec![],
+            if e.contains("ZeroDet") {
+                "zerodet"
+            } else if e.contains("Unstable") {
+                "unstable"
+            } else {
+                "panicked"
+            },
+        ),
+        Ok((det, inv)) => {
+            let mut v = Vec::new();
+            if det.hi == 0.0 {
+                v.push(V16 { class: "ok-with-zero-determinant".into(), what: "Ok returned with determinant 0 (double-double scalar)".into() });
+            }
+            if let Some(tb) = tol {
+                let t = f64::from_bits(tb);
+                if inv.iter().any(|(h, l)| h.is_nan() || l.is_nan()) || det.hi.is_nan() {
+                    v.push(V16 { class: "ok-with-nan-in-decomposition".into(), what: format!("Some({:?}) but the Ok decomposition contains NaN (double-double scalar)", t) });
+                } else if t.is_nan() {
+                    v.push(V16 { class: "ok-although-distance-not-at-most-tolerance".into(), what: "tolerance is NaN, yet Ok (double-double scalar)".into() });
+                } else if t.is_finite() {
+                    let mat: Vec<(f64, f64)> = m.entries.iter().map(|b| (f64::from_bits(*b), 0.0)).collect();
+                    if let Some(dist) = exact::l21_distance_hp(&inv, &mat, m.dim) {
+                        // rounding slack of the library's own double-double evaluation
+                        let invh: Vec<u64> = inv.iter().map(|(h, _)| h.to_bits()).collect();
+                        let slack = 64.0 * m.dim as f64 * 2f64.powi(-104) * exact::abs_product_norm(&invh, &m.entries, m.dim);
+                        let bound = exact::Dy::from_f64(t.max(0.0)).and_then(|a| exact::Dy::from_f64(slack).map(|b| a.add(&b)));
+                        let over = match (&bound, t < 0.0) {
+                            (_, true) => true,
+                            (Some(b), _) => dist.cmp_dy(b) == std::cmp::Ordering::Greater,
+                            (None, _) => false,
+                        };
+                        if over {
+                            v.push(V16 {
+                                class: "ok-although-distance-not-at-most-tolerance".into(),
+                                what: format!(
+                                    "double-double scalar: exact L21 distance {:e} exceeds tolerance {:e} by {:e} (slack {:e}), yet Ok",
+                                    dist.to_f64(),
+                                    t,
+                                    exact::Dy::from_f64(t.max(0.0)).map(|a| dist.sub(&a).to_f64()).unwrap_or(f64::NAN),
+                                    slack
+                                ),
+                            });
+                        }
+                    } else if t.is_finite() {
+                        v.push(V16 { class: "ok-although-distance-not-at-most-tolerance".into(), what: "non-finite inverse with finite tolerance, yet Ok (double-double scalar)".into() });
+                    }
+                }
+            }
+            (v, "ok")
+        }
+    }
+}
+
 // ------------------------------------------------------------------ property
 
 pub struct C16;
 
 /// reported class = oracle clause : leg : natural | injected
 pub fn full_class(case: &Case, base: &str) -> String {
+    let none: Vec<Fault> = Vec::new();
+    let some: Vec<Fault> = vec![Fault { at: 0, kind: FaultKind::Perturb(0) }];
     let (leg, faults) = match case {
         Case::Direct { faults, .. } => ("direct", faults),
+        Case::DirectWide { fault: None, .. } => ("direct-wide-scalar", &none),
+        Case::DirectWide { fault: Some(_), .. } => ("direct-wide-scalar", &some),
         Case::Sample { faults, .. } => ("sample", faults),
     };
     format!("{}:{}:{}", base, leg, if faults.is_empty() { "natural" } else { "injected-fault" })
@@ -483,6 +604,14 @@ fn case_key(case: &Case, class: &str) -> String {
             hash_u64s(&mat.entries),
             tol.map(|t| format!("{:?}", f64::from_bits(t))).unwrap_or("none".into()),
             faults.iter().map(|f| format!("{}@{}", f.kind.label(), f.at)).collect::<Vec<_>>().join("+")
+        ),
+        Case::DirectWide { mat, tol, fault } => format!(
+            "C16:direct-wide-scalar:{}:dim={}:mat={:016x}:tol={}:fault={:?}",
+            class,
+            mat.dim,
+            hash_u64s(&mat.entries),
+            tol.map(|t| format!("{:?}", f64::from_bits(t))).unwrap_or("none".into()),
+            fault
         ),
         Case::Sample { spec, point, tol, faults, .. } => format!(
             "C16:sample:{}:graph={:016x}:point={:016x}:tol={}:faults={}",
@@ -503,6 +632,14 @@ fn nontrivial_key(case: &Case, fired: &[(u64, FaultKind, u8)], outcome: &str) ->
             h = mix(h, mat.dim as u64);
             h = mix(h, hash_u64s(&mat.entries));
             h = mix(h, tol.unwrap_or(1));
+        }
+        Case::DirectWide { mat, tol, fault } => {
+            h = mix(h, 0xdd);
+            h = mix(h, hash_u64s(&mat.entries));
+            h = mix(h, tol.unwrap_or(1));
+            if let Some((at, j)) = fault {
+                h = mix(mix(h, *at), *j as u64);
+            }
         }
         Case::Sample { spec, point, tol, meta, .. } => {
             h = mix(h, hash_str(&serde_json::to_string(spec).unwrap()));
@@ -529,6 +666,10 @@ fn record(res: &mut OneResult, case: &Case, cr: &CaseResult) {
                 res.add("cases_without_stability_test", 1);
             }
         }
+        Case::DirectWide { mat, .. } => {
+            res.add("wide_scalar_cases", 1);
+            res.add(&format!("dim_{}", mat.dim), 1);
+        }
         Case::Sample { .. } => res.add("sample_cases", 1),
     }
     for (_, k, _) in &cr.fired {
@@ -541,7 +682,8 @@ fn record(res: &mut OneResult, case: &Case, cr: &CaseResult) {
         "panicked" => res.add("probe_panicked", 1),
         _ => {}
     }
-    let fault_free = matches!(case, Case::Direct { faults, .. } | Case::Sample { faults, .. } if faults.is_empty());
+    let fault_free = matches!(case, Case::DirectWide { .. })
+        || matches!(case, Case::Direct { faults, .. } | Case::Sample { faults, .. } if faults.is_empty());
     if !cr.fired.is_empty() || (fault_free && cr.outcome != "ok") || fault_free {
         res.nontrivial.push(nontrivial_key(case, &cr.fired, cr.outcome));
     }
@@ -563,6 +705,39 @@ impl C16 {
         let fixed = fixed_matrices();
         let sample_leg = index % 4 == 3;
         let mut cases = Vec::new();
+        if index % 8 == 5 {
+            // wide-scalar leg: the same routine instantiated with a double-double type;
+            // fixed tolerances plus tolerances that sit just below the exact distance
+            let mut summary = Vec::new();
+            for _ in 0..(if thorough { 12 } else { 6 }) {
+                let mat = gen_matrix(&mut rng, 6);
+                let nmul = wide_mul_count(&mat);
+                // fault-free, and with one multiplication of the decomposition proper
+                // off by 1 + 2^-j (the detector's own multiplications come later)
+                let mut plans: Vec<Option<(u64, u8)>> = vec![None];
+                if nmul > 0 {
+                    for _ in 0..3 {
+                        plans.push(Some((rng.below(nmul), *rng.pick(&[12u8, 20, 30, 40]))));
+                    }
+                }
+                for fault in plans {
+                    let mut tols = if fault.is_none() { tolerances() } else { vec![None, Some(1e-10f64.to_bits())] };
+                    if let Some(dist) = wide_distance(&mat, fault) {
+                        let f = dist.floor_f64();
+                        if f.is_finite() && f > 0.0 {
+                            tols.push(Some(f.to_bits())); // largest f64 <= distance
+                            tols.push(Some(f.to_bits() - 1));
+                            tols.push(Some((0.5 * f).to_bits()));
+                        }
+                        summary.push(json!({"class": mat.class, "dim": mat.dim, "fault": fault, "exact_distance": dist.to_f64()}));
+                    }
+                    for t in tols {
+                        cases.push(Case::DirectWide { mat: mat.clone(), tol: t, fault });
+                    }
+                }
+            }
+            return (cases, Some(json!({"leg": "direct-wide-scalar (double-double)", "matrices": summary})));
+        }
         if !sample_leg {
             let mat = if (index / 4) < fixed.len() as u64 && index % 4 == 0 {
                 fixed[(index / 4) as usize].clone()
@@ -755,6 +930,7 @@ impl Property for C16 {
             let mut progressed = false;
             let nfaults = match &case {
                 Case::Direct { faults, .. } | Case::Sample { faults, .. } => faults.len(),
+                Case::DirectWide { .. } => 0,
             };
             for i in 0..nfaults {
                 let mut c = case.clone();
@@ -762,6 +938,7 @@ impl Property for C16 {
                     Case::Direct { faults, .. } | Case::Sample { faults, .. } => {
                         faults.remove(i);
                     }
+                    Case::DirectWide { .. } => {}
                 }
                 if fails(&c) {
                     case = c;
@@ -773,13 +950,20 @@ impl Property for C16 {
                 break;
             }
         }
-        if let Case::Direct { faults, .. } | Case::Sample { faults, .. } = &case {
+        let no_faults: Vec<Fault> = Vec::new();
+        let faults_now = match &case {
+            Case::Direct { faults, .. } | Case::Sample { faults, .. } => faults.clone(),
+            Case::DirectWide { .. } => no_faults,
+        };
+        {
+            let faults = &faults_now;
             if faults.len() == 1 {
                 let at = faults[0].at;
                 for k in 0..at {
                     let mut c = case.clone();
                     match &mut c {
                         Case::Direct { faults, .. } | Case::Sample { faults, .. } => faults[0].at = k,
+                        Case::DirectWide { .. } => {}
                     }
                     if fails(&c) {
                         case = c;
